@@ -213,7 +213,10 @@ def _dense_abs(r):
     if op in ("Identity", "Zero", "Permutation", "TransposePermutation"):
         return dense(r).abs()
     if op == "Toeplitz":
-        return toeplitz(v(r["c"]))
+        # Toeplitz products go through FFTs of the whole column: the rounding error of EVERY output entry is
+        # proportional to ||c|| (normwise), not to the entries of T that contribute to it
+        c = v(r["c"])
+        return toeplitz(c) + 0.5 * c.sum(-1, keepdim=True).unsqueeze(-1).expand(*c.shape, c.shape[-1])
     if op == "Tri":
         return v(r["t"]) if "t" in r else d(r["base"])
     if op in ("Chol", "Root", "LowRankRoot"):
